@@ -1,4 +1,5 @@
 import Dm.Driver.HygCmd
+import Dm.Driver.CfgCmd
 
 /- Line-protocol driver for the models over regenerated tables (`Dm/Gen/*`). -/
 
@@ -6,7 +7,10 @@ def handleGen (line : String) : String :=
   let l := line.trimAscii.toString
   match Dm.HygCmd.cmd l with
   | some a => a
-  | none => "bad-op"
+  | none =>
+    match Dm.CfgCmd.cmd l with
+    | some a => a
+    | none => "bad-op"
 
 partial def loopGen (h : IO.FS.Stream) (out : IO.FS.Stream) : IO Unit := do
   let line ← h.getLine
